@@ -73,8 +73,7 @@ func mutate(r *hx.Rng, b *base, kind string) string {
 	p := b.p
 	n := p.n
 	sl := len(b.sig)
-	// layout: R (n) ‖ FORS ‖ HT; HT = d × (WOTS len·n ‖ auth hp·n)
-	htOff := sl - (sl-n)/2 // only a rough split when the layout is not needed exactly
+	// layout: R (n) ‖ FORS k × (sk n ‖ auth a·n) ‖ HT d × (WOTS len·n ‖ auth hp·n)
 	switch kind {
 	case "sig-R":
 		return vfLine(b, b.pk, b.msg, b.ctx, flip(r, b.sig, 0, n), "-"+kind)
@@ -131,7 +130,6 @@ func mutate(r *hx.Rng, b *base, kind string) string {
 		// a well-formed key of the same set that did not sign; only f sets (cheap keygen)
 		return vfLine(b, append(append([]byte{}, b.pk[:n]...), r.Bytes(n)...), b.msg, b.ctx, b.sig, "-"+kind)
 	}
-	_ = htOff
 	panic("mutation kind")
 }
 
